@@ -31,6 +31,8 @@
 #include <mpi.h>
 
 #include <algorithm>
+#include <cstdio>
+#include <cstdlib>
 #include <cstring>
 #include <map>
 #include <memory>
@@ -651,7 +653,11 @@ int main(int argc, char** argv) {
   std::vector<char*> av(argv, argv + argc);
   bool has = false;
   for (int i = 1; i < argc; ++i) if (!std::strcmp(argv[i], "--case-timeout")) has = true;
-  static char k[] = "--case-timeout", v[] = "20";
+  static char k[] = "--case-timeout", v[16] = "20";
+  if (const char* e = std::getenv("DV_C06_CASE_TIMEOUT")) {  // development aid: faster shrinking of hanging replays
+    long t = std::atol(e);
+    if (t >= 1 && t <= 3600) std::snprintf(v, sizeof v, "%ld", t);
+  }
   if (!has) { av.push_back(k); av.push_back(v); }
   int rc = dv::runMpi((int)av.size(), av.data(), gen, exec);
   MPI_Finalize();
